@@ -116,6 +116,14 @@ pub struct RealSpec {
     pub hi: f64,
     pub penalty: Option<u64>,
     pub name: String,
+    /// the unit the objective is measured in: values are multiplied by this factor (tiny
+    /// values: every improvement is far below f64::EPSILON in absolute terms)
+    #[serde(default = "one")]
+    pub scale: f64,
+}
+
+fn one() -> f64 {
+    1.0
 }
 
 pub struct RealP {
@@ -179,7 +187,7 @@ impl HProblem for RealP {
                 }
             }
         };
-        if v.is_nan() { f64::INFINITY } else { v }
+        if v.is_nan() { f64::INFINITY } else { v * self.spec.scale }
     }
     fn sibling(&self) -> Self {
         let mut spec = self.spec.clone();
@@ -420,6 +428,7 @@ pub fn gen_real(g: &mut Gen, penalty: bool, max_dim: usize) -> RealSpec {
         hi,
         penalty: if penalty { Some(g.u64()) } else { None },
         name: format!("real{}", g.below(1000)),
+        scale: if g.chance(0.15) { *g.pick(&[1e-20, 1e-12, 1e15]) } else { 1.0 },
     }
 }
 
